@@ -282,7 +282,11 @@ func runC07(r *core.Run, tier string) {
 	}
 	r.Rule("a case is one history of a pool of 20..40 top-level definitions (a generated program): a random dependency-respecting permutation, deletion of definitions nothing kept refers to, insertion of unrelated decoy definitions (records, unions, generic records and their instantiations, generic functions, package_info blocks, type ... and ... groups, _.F lambdas, matches), and cutting the sequence into 1..4 files of one fc invocation (plus a .foi argument); for every Go declaration present both in the history and in the pool's base order the text (with _vN renumbered by first occurrence, extracted with go/parser) must be identical; the set of files written must be exactly gen_X.go per X.fo and nothing for the .foi; the hook-H2 trace must show the same number of type variables allocated by the same definition in every history; non-trivial = history differs from the base order; distinct by rendered text hash")
 	r.Assume("the reference relation is over-approximated textually: a definition depends on every earlier definition one of whose identifiers occurs in it", "decoys use identifiers no pool definition contains")
-	pools, _, _ := genCases(r.SeedV, "c07", fo.ProfileC01, nPools, 0)
+	// pools: the C01 profile with more top-level variables (their right-hand sides are parsed
+	// in the single long-lived root scope, where a leak reaches every later definition)
+	prof := fo.ProfileC01
+	prof.TopVarsMin = 3
+	pools, _, _ := genCases(r.SeedV, "c07", prof, nPools, 0)
 	type job struct {
 		pool int
 		h    *c07History
